@@ -226,6 +226,9 @@ func runCheck(o checkOpts) int {
 			rep["counterexample_quoted"] = strconv.Quote(lr.Witness)
 			ok, detail := p.replayLemmaWitness(o, lr)
 			rep["replay_on_real_code"] = detail
+			if lr.Lemma.ReplayKind != "" {
+				rep["replay_recipe"] = map[string]interface{}{"pkg": lr.Lemma.ReplayPkg, "kind": lr.Lemma.ReplayKind, "arg": lr.Lemma.ReplayArg, "inputs": append([]string{lr.Witness}, lr.Lemma.Also...)}
+			}
 			if ok {
 				suffix = ""
 			}
